@@ -2,6 +2,7 @@ package props
 
 import (
 	"bytes"
+	"context"
 	"encoding/json"
 	"fmt"
 	"github.com/indexsupply/shovel/wos"
@@ -80,6 +81,12 @@ func runC04(e *core.Env) error {
 		node := simnode.NewNode(chain)
 		e2eSharedClient(e, node, chain)
 		node.Close()
+		// the program's own loop: two declarations, each on two sources (tasks built by loadTasks): every row
+		// carries the stamp of the pair whose chain it comes from
+		for s := 0; s < e.N(2, 6); s++ {
+			out := twoSourceManager(context.Background(), e.Rand.Fork(), 40+s)
+			e.Add(core.Case{Impl: out, Spec: "ok", Key: fmt.Sprintf("c04-two-sources-manager %d", s), Nontrivial: true, Tags: []string{"stamps-through-the-manager"}})
+		}
 	}
 	r := e.Rand
 	nHist := e.N(30, 400)
@@ -779,6 +786,15 @@ func cfgDepsCases(e *core.Env) {
 			parts = append(parts, strings.Join([]string{ig.Name, ig.Table.Name, strings.Join(cols, ","), strings.Join(ir, "+"), strings.Join(br, "+")}, "/"))
 			want[ig.Name] = refsOf(ig)
 		}
+		// an untouched copy for the second entry point (validation writes into the declarations)
+		igs2 := make([]config.Integration, len(igs))
+		for i := range igs {
+			igs2[i] = igs[i]
+			igs2[i].Event.Inputs = append([]dig.Input{}, igs[i].Event.Inputs...)
+			igs2[i].Block = append([]dig.BlockData{}, igs[i].Block...)
+			igs2[i].Table.Columns = append([]wpg.Column{}, igs[i].Table.Columns...)
+			igs2[i].Dependencies = nil
+		}
 		root := config.Root{Integrations: igs}
 		impl := core.Protect(func() string {
 			if err := config.ValidateFilterRefs(&root); err != nil {
@@ -813,6 +829,25 @@ func cfgDepsCases(e *core.Env) {
 			}
 			e.Add(core.Case{Impl: strings.Join(got, ";"), Spec: strings.Join(exp, ";"), Key: "cfgdeps-o " + strings.Join(parts, ";"), Nontrivial: nrefs > 0,
 				Tags: []string{"cfgdeps-oracle", fmt.Sprintf("refs=%d", min(nrefs, 6))}, Detail: map[string]any{"config": parts}})
+			// the same through the WHOLE validation entry point (what a configuration file goes through): whatever
+			// else ValidateFix does to the declarations, an accepted one still waits for everything it references
+			root2 := config.Root{Integrations: igs2}
+			if verr := config.ValidateFix(&root2); verr == nil {
+				var got2 []string
+				for _, ig := range root2.Integrations {
+					set := map[string]bool{}
+					for _, d := range ig.Dependencies {
+						set[d] = true
+					}
+					var ds []string
+					for d := range set {
+						ds = append(ds, d)
+					}
+					got2 = append(got2, ig.Name+"="+strings.Join(sortedCopy(ds), ","))
+				}
+				e.Add(core.Case{Impl: strings.Join(got2, ";"), Spec: strings.Join(exp, ";"), Key: "cfgdeps-validatefix " + strings.Join(parts, ";"), Nontrivial: nrefs > 0,
+					Tags: []string{"cfgdeps-oracle", "through-ValidateFix"}, Detail: map[string]any{"config": parts}})
+			}
 		}
 	}
 }
@@ -1105,10 +1140,26 @@ func runC06(e *core.Env) error {
 		}
 		w.grow(1 + rep%4)
 		h0 := w.head()
+		verdict := "ok"
+		if rep%2 == 1 {
+			// the source refuses the request for its head just then (one method rate-limited): the step fails and
+			// writes nothing — it does not fall back on a head the client saw earlier
+			w.node.SetAfter(func(ex *simnode.Exchange) {
+				if len(ex.Requests) == 1 && ex.Requests[0].Method == "eth_getBlockByNumber" && len(ex.Requests[0].Params) > 0 && string(ex.Requests[0].Params[0]) == `"latest"` {
+					ex.Status = 429
+				}
+			})
+			before := w.digest()
+			o := w.step(late, noFault)
+			w.node.SetAfter(nil)
+			if strings.HasPrefix(o, "ok") || w.digest() != before {
+				verdict = fmt.Sprintf("the source refused to tell its head, yet the step of the integration without a start answered %q and wrote (head %d)", o, h0)
+			}
+		}
 		out := w.step(late, noFault)
 		rows, top, has, first := w.taskRows(late)
-		verdict := "ok"
 		switch {
+		case verdict != "ok":
 		case !strings.HasPrefix(out, "ok") || !has:
 			verdict = "first step of the late integration: " + out
 		case first != h0 || top != h0:
